@@ -136,3 +136,74 @@ fn c10_families_to_drop() {
     kani::cover!(got != 0 && gm != 0 && lm != 0);
     core::mem::forget((out, session, gr, llgr));
 }
+
+//@ id=C10 tier=quick cap=600
+//@ fn: event::collect_delete_families, event::collect_delete_llgr_families
+//@ bound: output list [StopTimer, DeleteStaleRoutes(F1), StartLlgrTimers(..), DeleteLlgrStaleRoutes(F2), DeleteStaleRoutes(F3)] with F1, F2, F3 any subsets of {v4,v6,vpn4}; unwind 8
+//@ desc: the driver-side extraction of what to purge returns exactly the union of the DeleteStaleRoutes lists (resp. DeleteLlgrStaleRoutes lists) and nothing from other outputs
+#[kani::proof]
+#[kani::unwind(8)]
+fn c10_collect_delete() {
+    const FAM: [Family; 3] = [Family::IPV4, Family::IPV6, Family::IPV4_VPN];
+    let pick = |m: u8| -> Vec<Family> {
+        let mut a = [FAM[0]; 3];
+        let mut n = 0usize;
+        if m & 1 != 0 {
+            a[n] = FAM[0];
+            n += 1;
+        }
+        if m & 2 != 0 {
+            a[n] = FAM[1];
+            n += 1;
+        }
+        if m & 4 != 0 {
+            a[n] = FAM[2];
+            n += 1;
+        }
+        fixed_vec(a, n)
+    };
+    let m1: u8 = kani::any();
+    let m2: u8 = kani::any();
+    let m3: u8 = kani::any();
+    kani::assume(m1 < 8 && m2 < 8 && m3 < 8);
+    let outs = fixed_vec(
+        [
+            crate::gr::GrOutput::StopTimer,
+            crate::gr::GrOutput::DeleteStaleRoutes(pick(m1)),
+            crate::gr::GrOutput::StartLlgrTimers(fixed_vec(
+                [(Family::IPV6, Duration::from_secs(1))],
+                1,
+            )),
+            crate::gr::GrOutput::DeleteLlgrStaleRoutes(pick(m2)),
+            crate::gr::GrOutput::DeleteStaleRoutes(pick(m3)),
+        ],
+        5,
+    );
+    let mask = |v: &Vec<Family>| -> (u8, usize) {
+        let mut m = 0u8;
+        let mut i = 0;
+        while i < v.len() {
+            if v[i] == FAM[0] {
+                m |= 1;
+            } else if v[i] == FAM[1] {
+                m |= 2;
+            } else if v[i] == FAM[2] {
+                m |= 4;
+            } else {
+                m |= 0x80;
+            }
+            i += 1;
+        }
+        (m, v.len())
+    };
+    let pc = |m: u8| (m & 1) as usize + ((m >> 1) & 1) as usize + ((m >> 2) & 1) as usize;
+    let g = collect_delete_families(&outs);
+    let l = collect_delete_llgr_families(&outs);
+    let (gm, gn) = mask(&g);
+    let (lm, ln) = mask(&l);
+    assert!(gm == m1 | m3 && gn == pc(m1) + pc(m3));
+    assert!(lm == m2 && ln == pc(m2));
+    kani::cover!(gm == 7 && lm == 0);
+    kani::cover!(lm == 5);
+    core::mem::forget((g, l, outs));
+}
